@@ -379,6 +379,25 @@ def run(repo, chk):
                 bad = f'evaluation order {order}, expected {want}'
                 break
         chk.expect(bad is None and n > 0, 'C01.E1', f'{fname}::operand order', bad or f'{n} paths', GEN)
+    # `a[i] op= e` is `a[i] = a[i] op e`: the old element is read (and protected) before e is evaluated
+    bad = None
+    n_comp = 0
+    for p, ev in gf.inlined('array_assignment'):
+        if p.outcome == 'raise' or _efg.Conds(ev).get('bin_op is None') is not False:
+            continue
+        n_comp += 1
+        rhs_at = next((i for i, e in enumerate(ev) if e.kind == 'sub' and e.func in EVALUATING and expr_arg(e) == 'rhs_expr'), None)
+        loads = [i for i, e in enumerate(ev) if e.kind == 'emit' and gf.ctor_kind(ev, i)[0] == 'sect' and gf.ctor_kind(ev, i)[1].startswith('l')]
+        if rhs_at is None or not loads or min(loads) > rhs_at:
+            bad = (f'element load at event {min(loads) if loads else None}, right-hand side evaluated at event {rhs_at}: the old element '
+                   'must be loaded before the right-hand side runs (it may assign the same element)')
+            break
+        # and it must be saved across that evaluation (pushed), not left in a scratch register
+        between = [e for e in ev[min(loads):rhs_at] if e.kind == 'sub' and e.func == 'self.push_value']
+        if not between:
+            bad = 'the old element is not pushed before the right-hand side is evaluated (evaluation clobbers the scratch registers)'
+            break
+    chk.expect(bad is None and n_comp > 0, 'C01.E1', 'array_assignment::compound reads the old element first', bad or f'{n_comp} paths', GEN)
 
     # ---------------- R1 --------------------------------------------------------------------------
     n_paths = 0
@@ -525,32 +544,95 @@ def run(repo, chk):
     chk.expect(0 <= i_start and [i_zero, i_a2, i_a1, i_ra, i_end] == list(range(i_start + 1, i_start + 6)), 'C01.A1', 'gen_lines::entry frame',
                f'zeroed stack of stack_size words, entry arguments in reverse order, win return address, stack_end (= initial fp): '
                f'{lay[max(i_start, 0):max(i_start, 0) + 7]}', GEN)
-    pi = src(gf.methods['__post_init__'])
-    i_len = pi.find('self.entry_args.append(asm.WordDirective(array_length))')
-    i_org = pi.find('self.entry_args.append(asm.WordDirective(label))')
-    chk.expect(0 <= i_len < i_org, 'C01.A1', '__post_init__::array parameter', 'length is appended before origin, so after reversal the length '
-               'is nearer to the return address, as reserve_type lays it out', GEN)
-    chk.expect("asm.ArgDirective(param.var.name, 'byte')" in pi and "asm.ArgDirective(param.var.name, 'word')" in pi and
-               "asm.ArgDirective(param.var.name, 'asciip')" in pi, 'C01.A1', '__post_init__::scalar parameters', 'byte / word / string pointer', GEN)
-    chk.expect("f'$argc - {non_array_args}'" in pi and 'non_array_args = len(is_you_decl.params) - 1' in pi, 'C01.A1',
-               '__post_init__::array length', 'array length = argc minus the scalar parameters', GEN)
-    chk.expect("self.label_for_func(ConcreteSignature(ast.Ident.you('is_you'), tuple(concrete_types)))" in pi, 'C01.A1',
-               '__post_init__::entry specialisation', 'the entry point is generated for the concrete parameter types', GEN)
+    entry_binding(repo, chk, gf)
     # the code section starts with the entry function: execution begins at the first instruction
     i_code, i_f, i_g, i_lib = at(b'%section code'), at(b'func_f:'), at(b'func_g:'), at(b'all_is_win:')
     chk.expect(0 <= i_code and i_f == i_code + 1 < i_g < i_lib, 'C01.A1', 'gen_lines::code section order',
                'generated functions, in the order of func_table (entry function first), directly follow `%section code` and precede '
                f'the library routines: {lay[max(i_code, 0):max(i_code, 0) + 6]}', GEN)
-    i_upd = pi.find('self.func_labels.update(stdlib.stdlib_funcs)')
-    i_entry = pi.find("self.label_for_func(ConcreteSignature(ast.Ident.you('is_you')")
-    i_make = pi.find('self.make_funcs()')
-    chk.expect(0 <= i_upd < i_entry < i_make and pi.count('self.label_for_func(') == 1, 'C01.A1', '__post_init__::entry generated first',
-               'the entry point must be the first function requested, so that it is the first body in the code section', GEN)
     mfn = src(gf.methods['make_funcs'])
     chk.expect('self.func_table[csig] = list(self.gen_func(csig, decl))' in mfn.replace('\n', ' ').replace('  ', '') or
                ('self.func_table[csig] = list(' in mfn and 'self.gen_func(csig, decl)' in mfn), 'C01.A1', 'make_funcs',
                'bodies are stored in generation order', GEN)
     chk.not_decided = ['the output bytes of any particular program; wrap-around, truncation and the VM\'s arithmetic (see C09)']
+
+
+def entry_binding(repo, chk, gf, rule='C01.A1'):
+    """CodeGen.__post_init__, interpreted for entry points with every mix of scalar parameters and an array parameter at
+    every position (function generation itself stubbed out): what the entry frame and the `%argv` line are built from."""
+    ns = gf.module_ns()
+    CG, asm, A, DT = ns['CodeGen'], ns['asm'], ns['ast'], ns['DataType']
+    AT = A.ArrayType
+
+    class _O:
+        pass
+
+    def param(name, t):
+        p = _O()
+        p.var = A.Variable(name, t, False)
+        p.span = None
+        return p
+
+    def run_entry(params):
+        g = object.__new__(CG)
+        g.word_size, g.stack_size, g.unchecked = 2, 50, False
+        g.env = _O()
+        decl = _O()
+        decl.ret_type, decl.params, decl.span = DT.EMPTY, params, None
+        g.env.funcs = {A.Ident.you('is_you'): {(): decl}}
+        g.state_data, g.const_data, g.numbered_labels, g.func_labels = {}, {}, {}, {}
+        log = []
+        g.label_for_func = lambda sig: log.append(('label_for_func', sig, len(g.func_labels)))
+        g.make_funcs = lambda: log.append(('make_funcs',))
+        g.__post_init__()
+        return g, log
+    scalars = [('n', DT.INT, 'word'), ('c', DT.BYTE, 'byte')]
+    arrays = [('data', AT(DT.BYTE, True), 'byte', (), True), ('nums', AT(DT.INT, False), 'word', (), False),
+              ('words', AT(DT.STRING, True), 'asciip', ('array',), True)]
+    n = 0
+    for aname, atype, afmt, aparams, aconst in arrays:
+        for n_before in (0, 1, 2):
+            for n_after in (0, 1, 2):
+                before = [param(f'p{i}', scalars[i % 2][1]) for i in range(n_before)]
+                after = [param(f'q{i}', scalars[(i + 1) % 2][1]) for i in range(n_after)]
+                key = f'@is_you({n_before} scalars, {atype} {aname}, {n_after} scalars)'
+                try:
+                    g, log = run_entry(before + [param(aname, atype)] + after)
+                except Exception as e:      # noqa: BLE001
+                    chk.fail(rule, key, f'{type(e).__name__}: {e}', GEN)
+                    continue
+                n += 1
+                ea = g.entry_args
+                k = n_before
+                ok = len(ea) == n_before + n_after + 2
+                if ok:
+                    ln, org = ea[k], ea[k + 1]
+                    data = g.const_data if aconst else g.state_data
+                    lab = org.items[0] if type(org).__name__ == 'WordDirective' and org.items else None
+                    d = data.get(lab)
+                    ok = type(ln).__name__ == 'WordDirective' and bytes(ln.items[0]) == f'$argc - {n_before + n_after}'.encode() and \
+                        d is not None and type(d).__name__ == 'ArgDirective' and d.var_name == aname and d.format == afmt and \
+                        tuple(d.params) == aparams and not (g.state_data if aconst else g.const_data)
+                chk.expect(ok, rule, key, f'entry arguments {ea}; the array is passed as (length = $argc - number of scalar parameters, '
+                           'origin = its argument table), length first', GEN)
+                # specialisation requested once, for the concrete parameter types, before the bodies are generated and after
+                # the library signatures are known
+                lf = [x for x in log if x[0] == 'label_for_func']
+                ok = len(lf) == 1 and log[-1] == ('make_funcs',) and log.index(lf[0]) < len(log) - 1 and lf[0][2] > 0 and \
+                    lf[0][1].name == A.Ident.you('is_you') and len(lf[0][1].concrete_params) == n_before + n_after + 1 and \
+                    getattr(lf[0][1].concrete_params[k], 'access', None) == (ns['AccessMode'].RC if aconst else ns['AccessMode'].RW)
+                chk.expect(ok, rule, key + '::entry specialisation', f'{log}', GEN)
+    for sname, stype, sfmt in scalars:
+        g, log = run_entry([param(sname, stype)])
+        ok = len(g.entry_args) == 1 and type(g.entry_args[0]).__name__ == 'ArgDirective' and g.entry_args[0].format == sfmt and \
+            g.entry_args[0].var_name == sname and g.argv_specs == [f'<{sname}>'.encode()]
+        chk.expect(ok, rule, f'@is_you({stype} {sname})', f'{g.entry_args} / {g.argv_specs}', GEN)
+        n += 1
+    g, log = run_entry([param('s', DT.STRING)])
+    ok = len(g.entry_args) == 1 and type(g.entry_args[0]).__name__ == 'WordDirective' and len(g.const_data) == 1 and \
+        next(iter(g.const_data.values())).format == 'asciip' and g.entry_args[0].items[0] == next(iter(g.const_data))
+    chk.expect(ok, rule, '@is_you(string s)', f'{g.entry_args} / {g.const_data}', GEN)
+    chk.floor('entry point shapes interpreted', n, 25)
 
 
 # ---------------------------------------------------------------------------------------------------------
